@@ -204,8 +204,8 @@ func (e *Engine) ctxNative(fi *FnInfo) *Native {
 		// keeps the parent's values (lookups walk the parent chain), drops its cancellation and deadline
 		return simple(func(e *Engine, s *State, gi int, args []Value) Value {
 			p := e.ctxOf(s, args[0])
-			done := s.alloc(&Object{ch: &ChanData{cap: 0}, label: "ctx.done"})
-			id := s.alloc(&Object{ctx: &CtxData{parent: p, done: done, err: Iface{}, cause: Iface{}, site: "WithoutCancel"}, label: "ctx"})
+			// Done() of such a context is a nil channel (done: 0), as in the standard library
+			id := s.alloc(&Object{ctx: &CtxData{parent: p, done: 0, err: Iface{}, cause: Iface{}, site: "WithoutCancel"}, label: "ctx"})
 			return e.ctxIface(id)
 		})
 	case "context.WithTimeout", "context.WithDeadline":
